@@ -93,6 +93,35 @@ def helper_bodies(eng, ctx, only=None):
                         lo = 8 * (width - 1 - i)
                         good = good and bv is not None and bv.known() and bv.width() <= 8 and all(bv.bit(k) == bvc.syms.bit(f"v.b{lo + k}") for k in range(8))
                     ok = good
+            if not ok and not e.guards:
+                # byte by byte: (v >> 8).to_bytes(1, 'big') + (v & 0xFF).to_bytes(1, 'big') - the leading part unmasked, so that a value too large for
+                # `width` bytes overflows exactly as v.to_bytes(width, 'big') does
+                parts = []
+
+                def flat(x):
+                    if x[0] == "bin" and x[1] == "+":
+                        flat(x[2])
+                        flat(x[3])
+                    else:
+                        parts.append(x)
+
+                flat(t)
+                inner_calls = [st for st in subterms(t) if isinstance(st, tuple) and st and st[0] == "call" and st[2] == inner and st[3] == (par,)]
+                one = lambda x: x[0] == "call" and x[2][0] == "attr" and x[2][2] == "to_bytes" and (x[3][:1] == (("const", 1),) or dict(x[4]).get("length") == ("const", 1)) \
+                    and dict(x[4]).get("signed", ("const", False)) == ("const", False)  # noqa: E731  (byte order is immaterial for one byte)
+                if len(parts) == width and inner_calls and all(one(x) for x in parts):
+                    from ..domains import BVContext
+
+                    bvc = BVContext()
+                    W = 8 * width + 16
+                    bvc.declare(inner_calls[0], "v", W)
+                    good = True
+                    for i, x in enumerate(parts):
+                        bv = bvc.to_bv(x[2][1])
+                        lo = 8 * (width - 1 - i)
+                        hi = W - lo if i == 0 else 8
+                        good = good and bv is not None and bv.known() and not bv.neg_ones and bv.width() <= hi and all(bv.bit(k) == bvc.syms.bit(f"v.b{lo + k}") for k in range(hi))
+                    ok = good
             ctx.check(bool(ok), "C07.D1", qual, f"{label} helper", expected=f"{show(inner)}(x).to_bytes({width}, '{fr['length_byteorder']}')", found=show(t)[:100], **eng.loc(f, e.node))
         ctx.check(len(r2) == 1, "C07.D1", qual, "single return", expected="1", found=str(len(r2)), **eng.loc(f, f.node))
 
